@@ -7,7 +7,7 @@ calls with all arguments; the delay seen by handler, before_sleep, sleeper, retr
 import runner_common as rc
 
 LEVEL = "proof"
-OPTS = {"p_tight_deadline": 0.5, "p_fail_exc": 0.6, "p_handler": 0.35, "p_bs": 0.4, "p_metric": 0.8, "p_log": 0.6,
+OPTS = {"entries": rc.ENTRIES_NO_BREAKER, "p_tight_deadline": 0.5, "p_fail_exc": 0.6, "p_handler": 0.35, "p_bs": 0.4, "p_metric": 0.8, "p_log": 0.6,
         "p_special": 0.04}
 
 
